@@ -8,13 +8,14 @@
    * line numbers are only used in messages; a backslash-newline inside a quoted string does not
      advance the counter. *)
 From Coq Require Import String Ascii List NArith ZArith QArith Bool.
+From Sylt Require Import Lua.LuaAst.
 Import ListNotations.
 Local Open Scope string_scope.
 
 Inductive token :=
 | TName (s : string)
 | TKw (s : string)
-| TNum (q : Q)
+| TNum (fl : bool) (q : Q)      (* fl: the numeral has a fraction or an exponent *)
 | TStr (s : string)
 | TOp (s : string)
 | TEof.
@@ -49,12 +50,13 @@ Definition hex_val (c : ascii) : N :=
   let n := code c in
   if (n <=? 57)%N then (n - 48)%N else if (n <=? 70)%N then (n - 55)%N else (n - 87)%N.
 
-(* LuaJIT: letters, '_' and every byte >= 128 may start a name *)
-Definition is_alpha (c : ascii) : bool :=
+(* letters and '_'; LuaJIT also lets every byte >= 128 be part of a name (Lua 5.3 in the C locale does not) *)
+Definition is_alpha (d : dialect) (c : ascii) : bool :=
   let n := code c in
-  ((65 <=? n)%N && (n <=? 90)%N) || ((97 <=? n)%N && (n <=? 122)%N) || (n =? 95)%N || (128 <=? n)%N.
+  ((65 <=? n)%N && (n <=? 90)%N) || ((97 <=? n)%N && (n <=? 122)%N) || (n =? 95)%N
+  || (negb (is53 d) && (128 <=? n)%N).
 
-Definition is_alnum (c : ascii) : bool := is_alpha c || is_digit c.
+Definition is_alnum (d : dialect) (c : ascii) : bool := is_alpha d c || is_digit c.
 
 Definition is_newline (c : ascii) : bool := let n := code c in (n =? 10)%N.
 
@@ -153,8 +155,27 @@ Fixpoint dec_escape (k : nat) (s : string) (acc : N) : N * string :=
   | _, _ => (acc, s)
   end.
 
+Fixpoint hex_digits (s : string) (acc : N) (cnt : N) : N * N * string :=
+  match s with
+  | String c s' => if is_hex c then hex_digits s' (acc * 16 + hex_val c)%N (cnt + 1)%N else (acc, cnt, s)
+  | EmptyString => (acc, cnt, s)
+  end.
+
+Definition utf8_encode (cp : N) : string :=
+  let b (n : N) := ascii_of_N n in
+  if (cp <? 128)%N then String (b cp) EmptyString
+  else if (cp <? 2048)%N then
+    String (b (192 + cp / 64)%N) (String (b (128 + cp mod 64)%N) EmptyString)
+  else if (cp <? 65536)%N then
+    String (b (224 + cp / 4096)%N)
+      (String (b (128 + (cp / 64) mod 64)%N) (String (b (128 + cp mod 64)%N) EmptyString))
+  else
+    String (b (240 + cp / 262144)%N)
+      (String (b (128 + (cp / 4096) mod 64)%N)
+         (String (b (128 + (cp / 64) mod 64)%N) (String (b (128 + cp mod 64)%N) EmptyString))).
+
 (* s is the text after the opening quote q; acc is the reversed contents so far *)
-Fixpoint read_quoted (fuel : nat) (q : ascii) (s : string) (acc : string) : str_result :=
+Fixpoint read_quoted (d : dialect) (fuel : nat) (q : ascii) (s : string) (acc : string) : str_result :=
   match fuel with
   | O => StrErr "unfinished string"
   | S fuel =>
@@ -167,7 +188,7 @@ Fixpoint read_quoted (fuel : nat) (q : ascii) (s : string) (acc : string) : str_
             match s1 with
             | EmptyString => StrErr "unfinished string"
             | String e s2 =>
-                let push (n : N) := read_quoted fuel q s2 (String (ascii_of_N n) acc) in
+                let push (n : N) := read_quoted d fuel q s2 (String (ascii_of_N n) acc) in
                 if Ascii.eqb e "a"%char then push 7%N
                 else if Ascii.eqb e "b"%char then push 8%N
                 else if Ascii.eqb e "f"%char then push 12%N
@@ -183,7 +204,7 @@ Fixpoint read_quoted (fuel : nat) (q : ascii) (s : string) (acc : string) : str_
                   match s2 with
                   | String e2 s3 =>
                       if is_cr_or_lf e2 && negb (Ascii.eqb e e2)
-                      then read_quoted fuel q s3 (String (ascii_of_N 10) acc)
+                      then read_quoted d fuel q s3 (String (ascii_of_N 10) acc)
                       else push 10%N
                   | EmptyString => push 10%N
                   end
@@ -191,18 +212,32 @@ Fixpoint read_quoted (fuel : nat) (q : ascii) (s : string) (acc : string) : str_
                   match s2 with
                   | String h1 (String h2 s4) =>
                       if is_hex h1 && is_hex h2
-                      then read_quoted fuel q s4 (String (ascii_of_N (hex_val h1 * 16 + hex_val h2)) acc)
+                      then read_quoted d fuel q s4 (String (ascii_of_N (hex_val h1 * 16 + hex_val h2)) acc)
                       else StrErr "invalid escape sequence"
                   | _ => StrErr "invalid escape sequence"
                   end
-                else if Ascii.eqb e "z"%char then read_quoted fuel q (skip_space s2) acc
+                else if Ascii.eqb e "z"%char then read_quoted d fuel q (skip_space s2) acc
+                else if Ascii.eqb e "u"%char && is53 d then
+                  (* \u{XXX}: the UTF-8 encoding of a code point up to 10FFFF (Lua 5.3 only) *)
+                  match s2 with
+                  | String "{"%char s3 =>
+                      let '(cp, cnt, r) := hex_digits s3 0%N 0%N in
+                      match r with
+                      | String "}"%char s4 =>
+                          if (cnt =? 0)%N then StrErr "hexadecimal digit expected"
+                          else if (1114111 <? cp)%N then StrErr "UTF-8 value too large"
+                          else read_quoted d fuel q s4 (srev_app (utf8_encode cp) acc)
+                      | _ => StrErr "missing '}' in \u{xxxx}"
+                      end
+                  | _ => StrErr "missing '{' in \u{xxxx}"
+                  end
                 else if is_digit e then
                   let (n, rest) := dec_escape 2 s2 (code e - 48)%N in
-                  if (n <=? 255)%N then read_quoted fuel q rest (String (ascii_of_N n) acc)
+                  if (n <=? 255)%N then read_quoted d fuel q rest (String (ascii_of_N n) acc)
                   else StrErr "invalid escape sequence"
                 else StrErr "invalid escape sequence"
             end
-          else read_quoted fuel q s1 (String c acc)
+          else read_quoted d fuel q s1 (String c acc)
       end
   end.
 
@@ -222,15 +257,10 @@ Fixpoint dec_digits (s : string) (acc : N) (cnt : N) : N * N * string :=
   | EmptyString => (acc, cnt, s)
   end.
 
-Fixpoint hex_digits (s : string) (acc : N) (cnt : N) : N * N * string :=
-  match s with
-  | String c s' => if is_hex c then hex_digits s' (acc * 16 + hex_val c)%N (cnt + 1)%N else (acc, cnt, s)
-  | EmptyString => (acc, cnt, s)
-  end.
-
 (* decimal numeral:  D* [ . D* ] [ (e|E) [+-] D+ ]  with at least one mantissa digit *)
-Definition parse_decimal (s : string) : option Q :=
+Definition parse_decimal (s : string) : option (bool * Q) :=
   let '(ip, icnt, r1) := dec_digits s 0%N 0%N in
+  let has_dot := match r1 with String "."%char _ => true | _ => false end in
   let '(fp, fcnt, r2) :=
     match r1 with
     | String "."%char r => dec_digits r 0%N 0%N
@@ -238,9 +268,9 @@ Definition parse_decimal (s : string) : option Q :=
     end in
   if ((icnt + fcnt) =? 0)%N then None else
   let mant := (Z.of_N ip * pow10 fcnt + Z.of_N fp)%Z in
-  let finish (ex : Z) (rest : string) : option Q :=
+  let finish (has_exp : bool) (ex : Z) (rest : string) : option (bool * Q) :=
     match rest with
-    | EmptyString => Some (q_of_dec mant (ex - Z.of_N fcnt)%Z)
+    | EmptyString => Some (has_dot || has_exp, q_of_dec mant (ex - Z.of_N fcnt)%Z)
     | _ => None
     end in
   match r2 with
@@ -254,21 +284,21 @@ Definition parse_decimal (s : string) : option Q :=
           end in
         let '(ev, ecnt, r5) := dec_digits r4 0%N 0%N in
         if (ecnt =? 0)%N then None
-        else finish (if neg then (- Z.of_N ev)%Z else Z.of_N ev) r5
+        else finish true (if neg then (- Z.of_N ev)%Z else Z.of_N ev) r5
       else None
-  | EmptyString => finish 0%Z r2
+  | EmptyString => finish false 0%Z r2
   end.
 
-Definition parse_hex (s : string) : option Q :=       (* s is the text after 0x *)
+Definition parse_hex (s : string) : option (bool * Q) :=       (* s is the text after 0x *)
   let '(v, cnt, rest) := hex_digits s 0%N 0%N in
   if (cnt =? 0)%N then None else
   match rest with
-  | EmptyString => Some (Qmake (Z.of_N v) 1)
+  | EmptyString => Some (false, Qmake (Z.of_N v) 1)
   | _ => None
   end.
 
-(* a complete numeral (used by the lexer on a lexeme and by `tonumber`) *)
-Definition parse_number (s : string) : option Q :=
+(* a complete numeral (used by the lexer on a lexeme and by `tonumber`): (is a float numeral, value) *)
+Definition parse_number (s : string) : option (bool * Q) :=
   match s with
   | String "0"%char (String x r) =>
       if Ascii.eqb x "x"%char || Ascii.eqb x "X"%char then parse_hex r else parse_decimal s
@@ -281,7 +311,7 @@ Fixpoint num_lexeme (s : string) (prev : ascii) (hex : bool) : string * string :
   | String c s' =>
       let expo := if hex then Ascii.eqb prev "p"%char || Ascii.eqb prev "P"%char
                   else Ascii.eqb prev "e"%char || Ascii.eqb prev "E"%char in
-      if is_alnum c || Ascii.eqb c "."%char
+      if is_alnum LuaJIT c || Ascii.eqb c "."%char
          || ((Ascii.eqb c "-"%char || Ascii.eqb c "+"%char) && expo)
       then let (a, b) := num_lexeme s' c hex in (String c a, b)
       else (EmptyString, s)
@@ -309,13 +339,13 @@ Inductive lex_step :=
 Definition lex_number (s : string) (line : N) : lex_step :=
   let (lexeme, rest) := num_lexeme s " "%char (starts_hex s) in
   match parse_number lexeme with
-  | Some q => StTok (TNum q) rest line
+  | Some (fl, q) => StTok (TNum fl q) rest line
   | None => StErr ("malformed number near '" ++ lexeme ++ "'")
   end.
 
 (* `fuel` is only used to read a quoted string; any number above the length of s1 is enough, and the
    main loop's own fuel is such a number *)
-Definition lex_one (fuel : nat) (c : ascii) (s1 : string) (line : N) : lex_step :=
+Definition lex_one (d : dialect) (fuel : nat) (c : ascii) (s1 : string) (line : N) : lex_step :=
   let s := String c s1 in
   let op1 := StTok (TOp (str1 c)) s1 line in
   (* two-character operator c c2, else `one` *)
@@ -326,11 +356,11 @@ Definition lex_one (fuel : nat) (c : ascii) (s1 : string) (line : N) : lex_step 
     end in
   if is_newline c then StSkip s1 (line + 1)%N
   else if is_space c then StSkip s1 line
-  else if is_alpha c then
-    let (name, rest) := span is_alnum s in StTok (name_token name) rest line
+  else if is_alpha d c then
+    let (name, rest) := span (is_alnum d) s in StTok (name_token name) rest line
   else if is_digit c then lex_number s line
   else if Ascii.eqb c """"%char || Ascii.eqb c "'"%char then
-    match read_quoted fuel c s1 EmptyString with
+    match read_quoted d fuel c s1 EmptyString with
     | StrOk str rest => StTok (TStr str) rest line
     | StrErr msg => StErr msg
     end
@@ -368,9 +398,14 @@ Definition lex_one (fuel : nat) (c : ascii) (s1 : string) (line : N) : lex_step 
     | EmptyString => op1
     end
   else if Ascii.eqb c "="%char then op2 "="%char op1
-  else if Ascii.eqb c "<"%char then op2 "="%char op1
-  else if Ascii.eqb c ">"%char then op2 "="%char op1
-  else if Ascii.eqb c "~"%char then op2 "="%char (StErr "unexpected symbol near '~'")
+  else if Ascii.eqb c "<"%char then
+    (if is53 d then op2 "<"%char (op2 "="%char op1) else op2 "="%char op1)
+  else if Ascii.eqb c ">"%char then
+    (if is53 d then op2 ">"%char (op2 "="%char op1) else op2 "="%char op1)
+  else if Ascii.eqb c "~"%char then
+    op2 "="%char (StErr (if is53 d then "unsupported: bitwise operator '~'" else "unexpected symbol near '~'"))
+  else if Ascii.eqb c "/"%char then (if is53 d then op2 "/"%char op1 else op1)
+  else if is53 d && (Ascii.eqb c "&"%char || Ascii.eqb c "|"%char) then StErr "unsupported: bitwise operators"
   else if Ascii.eqb c ":"%char then op2 ":"%char op1
   else if Ascii.eqb c "."%char then
     match s1 with
@@ -379,25 +414,25 @@ Definition lex_one (fuel : nat) (c : ascii) (s1 : string) (line : N) : lex_step 
     | String d _ => if is_digit d then lex_number s line else op1
     | EmptyString => op1
     end
-  else if mem_string (str1 c) ["+"; "*"; "/"; "%"; "^"; "#"; "("; ")"; "{"; "}"; "]"; ";"; ","]
+  else if mem_string (str1 c) ["+"; "*"; "%"; "^"; "#"; "("; ")"; "{"; "}"; "]"; ";"; ","]
   then op1
   else StErr ("unexpected symbol near '" ++ str1 c ++ "'").
 
 (* every step consumes at least one character, so length s + 1 is enough fuel *)
-Fixpoint lex_go (fuel : nat) (s : string) (line : N) (acc : list (token * N)) : lex_result :=
+Fixpoint lex_go (d : dialect) (fuel : nat) (s : string) (line : N) (acc : list (token * N)) : lex_result :=
   match fuel with
   | O => LexErr line "lexer out of fuel"
   | S fuel =>
       match s with
       | EmptyString => LexOk (rev' ((TEof, line) :: acc))
       | String c s1 =>
-          match lex_one fuel c s1 line with
-          | StTok t rest line' => lex_go fuel rest line' ((t, line) :: acc)
-          | StSkip rest line' => lex_go fuel rest line' acc
+          match lex_one d fuel c s1 line with
+          | StTok t rest line' => lex_go d fuel rest line' ((t, line) :: acc)
+          | StSkip rest line' => lex_go d fuel rest line' acc
           | StErr msg => LexErr line msg
           end
       end
   end.
 
 (* rev' is the linear-time reversal (List.rev is quadratic when extracted) *)
-Definition lex (s : string) : lex_result := lex_go (String.length s + 1) s 1%N [].
+Definition lex (d : dialect) (s : string) : lex_result := lex_go d (String.length s + 1) s 1%N [].
